@@ -554,7 +554,8 @@ class RoiSubsetStateNd(SubsetState):
         self._roi.move_to(*args)
 
     def copy(self):
-        return RoiSubsetStateNd(atts=list(self._atts), roi=self._roi,
+        return RoiSubsetStateNd(atts=list(self._atts),
+                                roi=None if self._roi is None else self._roi.copy(),
                                 pretransform=self._pretransform)
 
     @contract(data='isinstance(Data)', view='array_view')
@@ -668,7 +669,7 @@ class RoiSubsetState(RoiSubsetStateNd):
         result = RoiSubsetState()
         result.xatt = self.xatt
         result.yatt = self.yatt
-        result.roi = self.roi
+        result.roi = None if self.roi is None else self.roi.copy()
         result.pretransform = self.pretransform
         return result
 
@@ -728,7 +729,7 @@ class CategoricalROISubsetState(SubsetState):
     def copy(self):
         result = CategoricalROISubsetState()
         result.att = self.att
-        result.roi = self.roi
+        result.roi = None if self.roi is None else self.roi.copy()
         return result
 
     @staticmethod
@@ -1881,7 +1882,7 @@ class RoiSubsetState3d(RoiSubsetStateNd):
         result.xatt = self.xatt
         result.yatt = self.yatt
         result.zatt = self.zatt
-        result.roi = self.roi
+        result.roi = None if self.roi is None else self.roi.copy()
         result.pretransform = self.pretransform
         return result
 
